@@ -37,6 +37,12 @@ func runC07(c *engine.Ctx, tier string) {
 		Sel:     engine.Sel{Field: "config/v2.ProposalApplyPhase.State", RHS: "config/v2.ProposalApplyPhase_APPLIED"},
 		Require: "@CFG.Status.Applied.Index >= @OWN || (#ok(" + sbSet + ") && #wrote(" + fAppliedIdx + "=@OWN) && #ok(" + stCfgUpdStat + "))",
 		Why:     "APPLIED is recorded either because the applied cursor already covers the proposal (resume after crash) or after the Set succeeded and the cursor was persisted"})
+	// re-creation of proposals after a crash: a proposal that already exists is collected, not skipped
+	saved := c.Al
+	c.Al = transactionAliases(c.P)
+	onePerTarget(c, "C07.1d", "@TCHG.Change.Values")
+	onePerTarget(c, "C07.1e", "@RBTCHG.Change.Values")
+	c.Al = saved
 	// (2) write order
 	c.Guard(engine.Guard{ID: "C07.2a", Pkg: pkgProposalCtl, Min: 1,
 		Sel:     engine.Sel{Field: "config/v2.ProposalCommitPhase.State", RHS: "config/v2.ProposalCommitPhase_COMMITTED"},
@@ -54,6 +60,25 @@ func runC07(c *engine.Ctx, tier string) {
 		Sel:     engine.Sel{Field: fAppliedIdx, RHS: "@OWN", Filter: afterSet},
 		Require: "#called(" + sbSet + ")",
 		Why:     "in the apply step the applied cursor moves only after the device was asked"})
+	// write order inside the configuration store: the value maps are persisted before the versioned
+	// record whose cursor claims them
+	sp, serr := storePaths(c, pkgStoreCfgV2)
+	if serr == nil {
+		saved := c.Al
+		c.Al = engine.NewAliases(c.P, "C", "$Configuration")
+		storeFn := "store/v2/configuration.configurationStore.store"
+		for _, x := range []struct{ id, root, vals string }{
+			{"C07.2e", "configurationStore.Update", "@C.Values"},
+			{"C07.2f", "configurationStore.UpdateStatus", "@C.Status.Applied.Values"},
+		} {
+			root := x.root
+			c.Guard(engine.Guard{ID: x.id, Pkg: pkgStoreCfgV2, Min: 1, PathsOverride: sp,
+				Sel: engine.Sel{Call: "map.Map.Update", Filter: func(p *engine.Path, i int) bool { return strings.HasSuffix(p.Root.Name(), root) }},
+				Require: x.vals + " == nil || #ok(" + storeFn + ")",
+				Why:     "the commit/apply step is re-entrant only because the cursor in the record is written after the values it stands for: a crash between the two writes must leave the cursor behind, never ahead"})
+		}
+		c.Al = saved
+	}
 	// (3) one status write per pass
 	muts := engine.Sel{CallAny: v2Mutators}
 	for _, x := range []struct{ id, pkg, after string }{
